@@ -192,7 +192,9 @@ pub struct Known {
 ///   fixed: property=<id> <commit> <what failed>         (suppresses nothing)
 pub fn load_known(verif_dir: &Path) -> Vec<Known> {
     let mut v = Vec::new();
-    if let Ok(s) = std::fs::read_to_string(verif_dir.join("known_findings.txt")) {
+    // VERIF_KNOWN_FILE: used only by the sensitivity self-test to exercise this path
+    let file = std::env::var("VERIF_KNOWN_FILE").map(PathBuf::from).unwrap_or_else(|_| verif_dir.join("known_findings.txt"));
+    if let Ok(s) = std::fs::read_to_string(file) {
         for line in s.lines() {
             let line = line.trim();
             if let Some(rest) = line.strip_prefix("known:") {
@@ -248,7 +250,15 @@ pub fn run_once(scn: &Scenario, transcript: bool) -> (Option<Violation>, RunStat
     }
 }
 
+/// The part of a signature that names the kind of failure (before the first ':').
+fn sig_kind(sig: &str) -> &str {
+    sig.split(':').next().unwrap_or(sig)
+}
+
+/// Greedy structural shrinking while the same invariant keeps failing *in the same way*
+/// (same signature kind), so that one class of violation does not drift into another.
 pub fn minimise(scn: Scenario, invariant: &str, budget: &mut u64) -> Scenario {
+    let kind: Option<String> = run_once(&scn, false).0.map(|v| sig_kind(&v.signature).to_string());
     let mut cur = scn;
     loop {
         let mut improved = false;
@@ -258,7 +268,7 @@ pub fn minimise(scn: Scenario, invariant: &str, budget: &mut u64) -> Scenario {
             }
             *budget -= 1;
             if let (Some(v), _) = run_once(&cand, false) {
-                if v.invariant == invariant {
+                if v.invariant == invariant && kind.as_deref().map_or(true, |k| sig_kind(&v.signature) == k) {
                     cur = cand;
                     improved = true;
                     break;
@@ -465,6 +475,11 @@ pub fn check(a: &RunArgs) -> i32 {
         };
         regress_run += 1;
         if let (Some(v), _) = run_once(&rf.scenario, false) {
+            if let Some(k) = load_known(&a.verif_dir).iter().find(|k| k.property == a.prop && k.signature == v.signature) {
+                // a listed finding: reported below as KNOWN-FINDING when the exploration meets it
+                println!("regression replay {} fails with the listed finding {}", f.display(), k.signature);
+                continue;
+            }
             println!("regression replay {} fails again: {} ({})", f.display(), v.invariant, v.signature);
             println!("{}", v.detail);
             println!("VIOLATION property={} replay={}", a.prop, f.display());
